@@ -371,6 +371,11 @@ def toast_pixel_for_point(depth, lat, lon, coordsys=ToastCoordinateSystem.ASTRON
     # that is closest to the input position.
 
     lons, lats = toast_tile_get_coords(tile)
+
+    # The tile longitudes may lie on a different 2pi branch than the query
+    # (e.g. -pi/2 vs 3pi/2); bring them onto the branch nearest to it.
+    lons = lon + ((lons - lon + np.pi) % TWOPI - np.pi)
+
     dist2 = (lons - lon) ** 2 + (lats - lat) ** 2
     min_y, min_x = np.unravel_index(np.argmin(dist2), (256, 256))
 
